@@ -345,7 +345,7 @@ theorem spillInstrOkB_sound (p : Program) (C : SpillCtx) (live : Nat → List VR
     exact hren tf htf
   · intro r hr
     simp only [List.all_eq_true, List.mem_append, Bool.and_eq_true, Bool.or_eq_true, Bool.not_eq_true',
-      List.contains_eq_mem, decide_eq_false_iff_not, decide_eq_true_eq] at hocc
+      List.contains_eq_mem, decide_eq_false_iff_not] at hocc
     have := hocc r hr
     refine ⟨fun ht => ?_, this.2⟩
     rcases this.1 with h1 | h1
@@ -481,7 +481,8 @@ theorem filter_head_lookup (defs : List VReg) (d : VReg) (hd : d ∈ defs) :
       simp [List.filter, ha, List.lookup]
     · have hne : (d == a) = false := by
         simp only [beq_eq_false_iff_ne, ne_eq]; intro e; subst e; exact ha hd
-      simp only [List.filter, List.contains_eq_mem, ha, decide_false, List.lookup, hne]
+      have hc : defs.contains a = false := by simpa using ha
+      simp only [List.filter, hc, List.lookup, hne]
       exact filter_head_lookup defs d hd ren (fun tf htf => h tf (List.mem_cons_of_mem _ htf))
 
 theorem storesOf_last (ren : Ren) (ins : Instr) (temps : List VReg) (d : VReg)
@@ -604,5 +605,279 @@ theorem pick_map (g : Nat → Nat) : ∀ (l : List Nat) (k d d' : Nat), l ≠ []
     cases l with
     | nil => exact absurd rfl hl
     | cons a t => simp
+
+/-! ### the simulation -/
+
+/-- matched states: the rewritten list is at the start of the code for the original
+    instruction, same memory, every live register that is neither spilled nor fresh agrees,
+    and the slot holds the value of every live temp of the spilled node -/
+def SRel {Val σ : Type} (plan : Nat → Plan) (pre : Program) (C : SpillCtx) (live : Nat → List VReg)
+    (s : VState Val σ) (t : SState Val σ) : Prop :=
+  t.pc = offset plan pre s.pc ∧ t.st = s.st ∧
+  (∀ r ∈ live s.pc, r ∉ C.temps → r ∉ C.fresh → t.regs r = s.regs r) ∧
+  (∀ r ∈ live s.pc, r ∈ C.temps → t.slot = s.regs r)
+
+theorem expand_get_load (pl : Plan) (ins : Instr) (j : Nat) (f : VReg) (h : (loadsOf pl.ren ins)[j]? = some f) :
+    (expand pl ins)[j]? = some (.load f pl.lclob) := by
+  have hj : j < (loadsOf pl.ren ins).length := by
+    rcases Nat.lt_or_ge j (loadsOf pl.ren ins).length with h' | h'
+    · exact h'
+    · rw [List.getElem?_eq_none h'] at h; cases h
+  simp only [expand, List.append_assoc]
+  rw [List.getElem?_append_left (by simpa using hj), List.getElem?_map, h]; rfl
+
+theorem expand_get_ins (pl : Plan) (ins : Instr) :
+    (expand pl ins)[(loadsOf pl.ren ins).length]? = some (.ins (renInstr pl.ren ins)) := by
+  simp only [expand, List.append_assoc]
+  rw [List.getElem?_append_right (by simp)]
+  simp
+
+theorem expand_get_store (pl : Plan) (ins : Instr) (j : Nat) (f : VReg) (h : (storesOf pl.ren ins)[j]? = some f) :
+    (expand pl ins)[(loadsOf pl.ren ins).length + 1 + j]? = some (.store f pl.sclob) := by
+  simp only [expand]
+  rw [List.getElem?_append_right (by simp)]
+  simp only [List.length_append, List.length_map, List.length_cons, List.length_nil]
+  have : (loadsOf pl.ren ins).length + 1 + j - ((loadsOf pl.ren ins).length + (0 + 1)) = j := by omega
+  rw [this, List.getElem?_map, h]; rfl
+
+theorem spill_step {Val σ : Type} (pre : Program) (post : List SInstr) (C : SpillCtx) (live : Nat → List VReg)
+    (plan : Nat → Plan) (hc : SpillChecked pre post C live plan)
+    (S : Sem Val σ) (Jp Js : Nat → PReg → Val) (s : VState Val σ) (t : SState Val σ)
+    (hr : SRel plan pre C live s t) (ins : Instr) (hi : pre[s.pc]? = some ins) :
+    ∃ m, SRel plan pre C live (vstep S C.model (Jp t.k) pre s) (srun S C.model Jp Js post m t) ∧
+      (srun S C.model Jp Js post m t).k = t.k + 1 := by
+  obtain ⟨hpc, hst, hregs, hslot⟩ := hr
+  have hok := hc.instr s.pc ins hi
+  have hkeys : ∀ tf ∈ (plan s.pc).ren, tf.1 ∈ C.temps := fun tf h => (hok.ren_ok tf h).1
+  have hvals : ∀ tf ∈ (plan s.pc).ren, tf.2 ∈ C.fresh := fun tf h => (hok.ren_ok tf h).2
+  have hfnf : ∀ f ∈ C.fresh, C.model.fixed f = false := fun f h => (hc.fresh_ok f h).2
+  -- the code of this instruction in the rewritten list
+  have hq : ∀ j, j < (expand (plan s.pc) ins).length →
+      post[t.pc + j]? = (expand (plan s.pc) ins)[j]? := by
+    intro j hj
+    rw [hc.shape, hpc]; exact post_get plan pre s.pc ins hi j hj
+  have hlen := expand_length (plan s.pc) ins
+  -- phase 1: the loads
+  have hLf : ∀ f ∈ loadsOf (plan s.pc).ren ins, C.model.fixed f = false :=
+    fun f h => hfnf f (loadsOf_fresh _ _ _ hvals f h)
+  have h1 := srun_loads S C.model Jp Js post (plan s.pc).lclob (loadsOf (plan s.pc).ren ins) t (by
+    intro j f hjf
+    have hj : j < (loadsOf (plan s.pc).ren ins).length := by
+      rcases Nat.lt_or_ge j (loadsOf (plan s.pc).ren ins).length with h' | h'
+      · exact h'
+      · rw [List.getElem?_eq_none h'] at hjf; cases hjf
+    rw [hq j (by omega)]; exact expand_get_load _ _ j f hjf)
+  -- registers after the loads
+  have hkeep : ∀ r ∈ live s.pc, r ∉ C.temps → r ∉ C.fresh →
+      afterLoads C.model (Js t.k) t.slot (plan s.pc).lclob (loadsOf (plan s.pc).ren ins) t.regs r = s.regs r := by
+    intro r hr hrt hrf
+    rw [← hregs r hr hrt hrf]
+    by_cases hL : loadsOf (plan s.pc).ren ins = []
+    · rw [hL]; rfl
+    · apply afterLoads_other
+      · exact fun z hz => (hok.lclob_ok hL z hz).2 r hr
+      · exact fun hmem => hrf (loadsOf_fresh _ _ _ hvals r hmem)
+      · exact hLf
+  have hargs : (renInstr (plan s.pc).ren ins).uses.map
+      (afterLoads C.model (Js t.k) t.slot (plan s.pc).lclob (loadsOf (plan s.pc).ren ins) t.regs)
+      = ins.uses.map s.regs := by
+    simp only [renInstr, List.map_map]
+    apply List.map_congr_left
+    intro u hu
+    have hul := hok.uses_live u hu
+    have hocc := hok.occ_ok u (Or.inl hu)
+    simp only [Function.comp]
+    by_cases hut : u ∈ C.temps
+    · have hmem := mem_loadsOf (plan s.pc).ren ins u hu (hocc.1 hut)
+      have hL : loadsOf (plan s.pc).ren ins ≠ [] := fun e => by rw [e] at hmem; cases hmem
+      rw [afterLoads_fresh C.model (Js t.k) t.slot (plan s.pc).lclob _ (hLf _ hmem)
+        (fun z hz => (hok.lclob_ok hL z hz).1) _ _ (Or.inr hmem)]
+      exact hslot u hul hut
+    · rw [rename_not_temp _ _ hkeys u hut]
+      exact hkeep u hul hut hocc.2
+  -- phase 2: the instruction itself
+  have hins : post[t.pc + (loadsOf (plan s.pc).ren ins).length]? = some (.ins (renInstr (plan s.pc).ren ins)) := by
+    rw [hq _ (by omega)]; exact expand_get_ins _ _
+  -- successor
+  have hnext : pick (succsL (post.map SInstr.label) (t.pc + (loadsOf (plan s.pc).ren ins).length) ins.jumps)
+        (S.br ins.sem (ins.uses.map s.regs) s.st) (t.pc + (loadsOf (plan s.pc).ren ins).length + 1)
+      + (storesOf (plan s.pc).ren ins).length
+      = offset plan pre (nextPc S pre s.pc ins (ins.uses.map s.regs) s.st) := by
+    unfold nextPc succs succsL
+    cases hj : ins.jumps.isEmpty with
+    | true =>
+      simp only [if_true, pick_single]
+      rw [offset_succ plan pre s.pc ins hi, hlen, hpc]; omega
+    | false =>
+      simp only [Bool.false_eq_true, if_false]
+      have hne : ins.jumps ≠ [] := (isEmpty_false_ne _).mp hj
+      rw [hok.jump_ok hj]
+      have hfl : ∀ l, findLabelL l (post.map SInstr.label) 0
+          = offset plan pre (findLabelL l (pre.map Instr.label) 0) := by
+        intro l
+        rw [hc.shape, findLabel_expand plan l pre 0 0 (by
+          intro k i2 hk hl
+          have := (hc.instr k i2 hk).label_ok hl
+          simpa using this)]
+        simp [offset]
+      have : ins.jumps.map (fun l => findLabelL l (post.map SInstr.label) 0)
+          = (ins.jumps.map (fun l => findLabelL l (pre.map Instr.label) 0)).map (offset plan pre) := by
+        rw [List.map_map]; apply List.map_congr_left; intro l _; exact hfl l
+      rw [this, pick_map (offset plan pre) _ _ (s.pc + 1) _ (by simpa using hne)]
+      simp
+  -- the three phases chained
+  refine ⟨(loadsOf (plan s.pc).ren ins).length + (1 + (storesOf (plan s.pc).ren ins).length), ?_⟩
+  rw [srun_add, h1, srun_add]
+  simp only [srun]
+  have hstep : sstep S C.model Jp Js post
+      { t with pc := t.pc + (loadsOf (plan s.pc).ren ins).length,
+               regs := afterLoads C.model (Js t.k) t.slot (plan s.pc).lclob (loadsOf (plan s.pc).ren ins) t.regs } =
+      { pc := pick (succsL (post.map SInstr.label) (t.pc + (loadsOf (plan s.pc).ren ins).length) ins.jumps)
+                (S.br ins.sem (ins.uses.map s.regs) s.st) (t.pc + (loadsOf (plan s.pc).ren ins).length + 1)
+        regs := writeV C.model (Jp t.k) (defVal S ins (ins.uses.map s.regs) s.st)
+                  (ins.defs.map (rename (plan s.pc).ren)) 0
+                  (ins.clobbers.foldl (havocV C.model (Jp t.k))
+                    (afterLoads C.model (Js t.k) t.slot (plan s.pc).lclob (loadsOf (plan s.pc).ren ins) t.regs))
+        st := newSt S ins (ins.uses.map s.regs) s.st
+        slot := t.slot
+        k := t.k + 1 } := by
+    simp only [sstep, hins, hargs, hst]
+    rfl
+  rw [hstep]
+  -- phase 3: the stores
+  have h3 := srun_stores S C.model Jp Js post (plan s.pc).sclob (storesOf (plan s.pc).ren ins)
+    { pc := pick (succsL (post.map SInstr.label) (t.pc + (loadsOf (plan s.pc).ren ins).length) ins.jumps)
+              (S.br ins.sem (ins.uses.map s.regs) s.st) (t.pc + (loadsOf (plan s.pc).ren ins).length + 1)
+      regs := writeV C.model (Jp t.k) (defVal S ins (ins.uses.map s.regs) s.st)
+                (ins.defs.map (rename (plan s.pc).ren)) 0
+                (ins.clobbers.foldl (havocV C.model (Jp t.k))
+                  (afterLoads C.model (Js t.k) t.slot (plan s.pc).lclob (loadsOf (plan s.pc).ren ins) t.regs))
+      st := newSt S ins (ins.uses.map s.regs) s.st
+      slot := t.slot
+      k := t.k + 1 } (by
+    intro j f hjf
+    have hSne : storesOf (plan s.pc).ren ins ≠ [] := fun e => by rw [e] at hjf; simp at hjf
+    have hje : ins.jumps.isEmpty = true := by
+      cases hj : ins.jumps.isEmpty with
+      | true => rfl
+      | false => exact absurd (hok.jump_ok hj) hSne
+    have hj : j < (storesOf (plan s.pc).ren ins).length := by
+      rcases Nat.lt_or_ge j (storesOf (plan s.pc).ren ins).length with h' | h'
+      · exact h'
+      · rw [List.getElem?_eq_none h'] at hjf; cases hjf
+    simp only [succsL, hje, if_true, pick_single]
+    have e : t.pc + (loadsOf (plan s.pc).ren ins).length + 1 + j
+        = t.pc + ((loadsOf (plan s.pc).ren ins).length + 1 + j) := by omega
+    rw [e, hq _ (by omega)]
+    exact expand_get_store _ _ j f hjf)
+  rw [h3]
+  simp only []
+  -- the relation at the successor
+  unfold vstep
+  rw [hi]
+  simp only []
+  have hSf : ∀ f ∈ storesOf (plan s.pc).ren ins, C.model.fixed f = false :=
+    fun f h => hfnf f (storesOf_fresh _ _ _ hvals f h)
+  refine ⟨⟨hnext, rfl, ?_, ?_⟩, trivial⟩
+  · -- ordinary registers
+    intro r hr hrt hrf
+    dsimp only at hr ⊢
+    generalize hjn : nextPc S pre s.pc ins (ins.uses.map s.regs) s.st = jn at hr
+    have hjm : jn ∈ succs pre s.pc ins := by rw [← hjn]; exact nextPc_mem ..
+    have hun : ∀ z ∈ (plan s.pc).sclob, storesOf (plan s.pc).ren ins ≠ [] → touches C.model z r = false :=
+      fun z hz hne => (hok.sclob_ok hne z hz).2 jn hjm r hr
+    have hreg : (afterStores C.model (Js (t.k + 1)) (plan s.pc).sclob (storesOf (plan s.pc).ren ins)
+        (writeV C.model (Jp t.k) (defVal S ins (ins.uses.map s.regs) s.st)
+          (ins.defs.map (rename (plan s.pc).ren)) 0
+          (ins.clobbers.foldl (havocV C.model (Jp t.k))
+            (afterLoads C.model (Js t.k) t.slot (plan s.pc).lclob (loadsOf (plan s.pc).ren ins) t.regs))) t.slot).1 r
+        = writeV C.model (Jp t.k) (defVal S ins (ins.uses.map s.regs) s.st)
+          (ins.defs.map (rename (plan s.pc).ren)) 0
+          (ins.clobbers.foldl (havocV C.model (Jp t.k))
+            (afterLoads C.model (Js t.k) t.slot (plan s.pc).lclob (loadsOf (plan s.pc).ren ins) t.regs)) r := by
+      by_cases hS : storesOf (plan s.pc).ren ins = []
+      · rw [hS]; rfl
+      · exact afterStores_regs C.model _ _ r (fun z hz => hun z hz hS) _ _ _
+    rw [hreg]
+    apply write_agree C.model (Jp t.k) _ (plan s.pc).ren C.temps C.fresh hok.ren_ok hc.temps_ok hfnf r hrt hrf
+    · exact fun d hd hdt => (hok.occ_ok d (Or.inr hd)).1 hdt
+    · rcases hok.out_live jn hjm r hr with h | h
+      · exact Or.inr h
+      · left
+        apply foldl_havocV_congr
+        exact hkeep r h hrt hrf
+  · -- the slot
+    intro r hr hrt
+    dsimp only at hr ⊢
+    generalize hjn : nextPc S pre s.pc ins (ins.uses.map s.regs) s.st = jn at hr
+    have hjm : jn ∈ succs pre s.pc ins := by rw [← hjn]; exact nextPc_mem ..
+    have hrnf : C.model.fixed r = false := hc.temps_ok r hrt
+    rcases hok.slot_ok with hsd | ⟨d, hsd, hcond⟩
+    · -- no temp of the node is defined here: slot and r unchanged
+      rw [storesOf_nil _ _ _ hkeys hsd]
+      simp only [afterStores]
+      have hrd : r ∉ ins.defs := by
+        intro hd
+        have : r ∈ spilledDefs C.temps ins := by
+          simp only [spilledDefs, List.mem_filter, List.contains_eq_mem, decide_eq_true_eq]; exact ⟨hd, hrt⟩
+        rw [hsd] at this; cases this
+      have hrl : r ∈ live s.pc := by
+        rcases hok.out_live jn hjm r hr with h | h
+        · exact absurd h hrd
+        · exact h
+      rw [writeV_other_nf C.model _ _ r hrnf _ _ _ hrd, foldl_havocV_nf C.model _ r hrnf]
+      exact hslot r hrl hrt
+    · -- temp d is defined here; the slot receives its new value
+      have hdm : d ∈ spilledDefs C.temps ins := by rw [hsd]; simp
+      simp only [spilledDefs, List.mem_filter, List.contains_eq_mem, decide_eq_true_eq] at hdm
+      have hlk := (hok.occ_ok d (Or.inr hdm.1)).1 hdm.2
+      have hd'f : rename (plan s.pc).ren d ∈ C.fresh := hvals _ (rename_temp _ d hlk)
+      have hlast := storesOf_last (plan s.pc).ren ins C.temps d hkeys hsd hlk
+      have hSne : storesOf (plan s.pc).ren ins ≠ [] := fun e => by rw [e] at hlast; simp at hlast
+      rw [afterStores_slot C.model _ _ (fun z hz => (hok.sclob_ok hSne z hz).1) _ _ _ hSf, hlast]
+      simp only []
+      rw [write_spilled C.model (Jp t.k) _ (plan s.pc).ren C.temps C.fresh hok.ren_ok hc.temps_ok hfnf d hdm.2 hd'f
+        ins.defs 0 (ins.clobbers.foldl (havocV C.model (Jp t.k)) s.regs) _
+        (fun x hx => (hok.occ_ok x (Or.inr hx)).2) hsd]
+      rcases hcond jn hjm r hr hrt with e | ⟨hmv, hu⟩
+      · rw [e]
+      · -- r is the source of a move into d
+        obtain ⟨sv, dd, hu', hd', _, hcl⟩ := hok.move_wf hmv
+        have hsr : sv = r := by rw [hu'] at hu; simpa using hu
+        subst hsr
+        have hdd : dd = d := by
+          have : d ∈ ins.defs := hdm.1
+          rw [hd'] at this; simp at this; exact this.symm
+        subst hdd
+        by_cases hrd : sv = dd
+        · rw [hrd]
+        · have hrnd : sv ∉ ins.defs := by rw [hd']; simpa using hrd
+          rw [writeV_other_nf C.model _ _ sv hrnf _ _ _ hrnd, foldl_havocV_nf C.model _ sv hrnf]
+          simp [hd', hu', hcl, writeV, writeRegV, defVal, hmv]
+
+theorem vrunF_halted {Val σ : Type} (S : Sem Val σ) (M : RegModel) (Jp : Nat → PReg → Val) (p : Program) :
+    ∀ (n k : Nat) (s : VState Val σ), p[s.pc]? = none → vrunF S M Jp p n k s = s
+  | 0, _, _, _ => rfl
+  | n + 1, k, s, h => by
+    have : vstep S M (Jp k) p s = s := by simp [vstep, h]
+    rw [vrunF, this]
+    exact vrunF_halted S M Jp p n (k + 1) s h
+
+theorem spill_run {Val σ : Type} (pre : Program) (post : List SInstr) (C : SpillCtx) (live : Nat → List VReg)
+    (plan : Nat → Plan) (hc : SpillChecked pre post C live plan)
+    (S : Sem Val σ) (Jp Js : Nat → PReg → Val) :
+    ∀ (n : Nat) (s : VState Val σ) (t : SState Val σ), SRel plan pre C live s t →
+      ∃ m, SRel plan pre C live (vrunF S C.model Jp pre n t.k s) (srun S C.model Jp Js post m t)
+  | 0, _, _, h => ⟨0, h⟩
+  | n + 1, s, t, h => by
+    cases hi : pre[s.pc]? with
+    | none =>
+      rw [vrunF_halted S C.model Jp pre (n + 1) t.k s hi]
+      exact ⟨0, h⟩
+    | some ins =>
+      obtain ⟨m1, hrel, hk⟩ := spill_step pre post C live plan hc S Jp Js s t h ins hi
+      obtain ⟨m2, h2⟩ := spill_run pre post C live plan hc S Jp Js n _ _ hrel
+      rw [hk] at h2
+      exact ⟨m1 + m2, by rw [srun_add, vrunF]; exact h2⟩
 
 end Proofs.RASpill
